@@ -76,15 +76,66 @@ def cascade_registry():
     return reg
 
 
+def roundtrip_registry():
+    """C08: export_key(format='DER', pkcs=1) then _import_pkcs1_private is the identity on valid private keys, over the exact abstract
+    DER codec (contracts/der_exact.py: assumed asn1 round trip) and the PROVED contract of construct.  Valid key = object invariant
+    rsa_private_ok(n, e, d, p, q, u) (what construct / generate hand out)."""
+    from . import der_exact
+    from vf.pyvc.interp import BuiltinV
+    reg = key_base_registry()
+    der_exact.install_der_exact(reg)
+    val_ = ['hasattr(self, "_d") == hasattr(self, "%s")' % f for f in ('_p', '_q', '_u', '_dp', '_dq', '_invq')]
+    val_.append('hasattr(self, "_d") ==> spec.keys.rsa_private_ok(self._n._value, self._e._value, self._d._value, self._p._value, self._q._value, self._u._value)')
+    reg.add(ClassContract(KEY, fields={'_n': OINT, '_e': OINT, '_d?': OINT, '_p?': OINT, '_q?': OINT, '_u?': OINT, '_dp?': OINT, '_dq?': OINT,
+                                       '_invq?': OINT + '|none'}, valid=val_))
+    reg.add(registry().contracts[R + 'construct'])
+    reg.overrides['Crypto.Random.get_random_bytes'] = BuiltinV('Crypto.Random.get_random_bytes', lambda E, st, a, k: [('val', st, E.fresh_bytes('entropy'))])
+    k = 'key'
+    same = ' and '.join('result.%s._value == %s.%s._value' % (f, k, f) for f in ('_n', '_e', '_d', '_p', '_q', '_u'))
+    reg.add(Contract('spec.keys_harness.rsa_pkcs1_roundtrip', params={'key': OKEY},
+                     requires=['hasattr(key, "_d")',
+                               # ground lemma instances (spec.keys.inverse_lemma): p*u == 1 mod q gives gcd(p, q) == 1 and u == inverse(p, q)
+                               'spec.keys.inverse_lemma(key._p._value, key._u._value, key._q._value)'],
+                     raises={}, result=OKEY,
+                     ensures={'identity': same, 'private': 'hasattr(result, "_d")',
+                              'crt': 'result._dp._value == key._d._value % (key._p._value - 1) and result._dq._value == key._d._value % (key._q._value - 1)'},
+                     modifies=None))
+    return reg
+
+
 CASCADE = ['_import_pkcs1_private', '_import_pkcs1_public', '_import_subjectPublicKeyInfo', '_import_x509_cert', '_import_pkcs8', '_import_keyDER']
 
 
 def units(prop, tier):
     from vf.pyunit import pyvc_unit
     if prop == 'C08':
-        return [pyvc_unit(prop, 'key.rsa.eq', registry, [KEY + '.__eq__'])]
+        return [pyvc_unit(prop, 'key.rsa.eq', registry, [KEY + '.__eq__']),
+                pyvc_unit(prop, 'key.rsa.roundtrip.pkcs1', roundtrip_registry, ['spec.keys_harness.rsa_pkcs1_roundtrip'])]
     if prop == 'C05':
         return [pyvc_unit(prop, 'key.rsa.construct', registry, [R + 'construct'])]
     if prop == 'C13':
         return [pyvc_unit(prop, 'key.rsa.import_der', cascade_registry, [R + f for f in CASCADE])]
     return []
+
+
+# ======================================================================================================================================
+# Vacuity / strength checks (tools/mut.py style: one textual mutation of /repo/lib/Crypto/PublicKey/RSA.py on a scratch copy; exit code and
+# the obligation that caught it).  Re-run:  tools/mut.py <prop> lib/Crypto/PublicKey/RSA.py '<old>' '<new>' --only <unit>
+#   C08 key.rsa.eq          `return (self.d == other.d)` -> `>=`                         exit 1  RsaKey.__eq__.ensures.semantic
+#   C08 key.rsa.eq          `self.n != other.n or self.e != other.e` -> `and`           exit 1  RsaKey.__eq__.ensures.semantic
+#   C05 key.rsa.construct   `if p * q != n:` -> `if False:`                             exit 1  construct.raises_iff.ValueError.if (5- and 6-tuples)
+#   C05 key.rsa.construct   `if e <= 1 or e >= n:` -> `e < 1`                            exit 1  construct.raises_iff.ValueError.if (all four shapes)
+#   C05 key.rsa.construct   `lcm = phi // (p - 1).gcd(q - 1)` -> `lcm = phi`            exit 1  construct.raises_iff.ValueError.only_if / .if
+#   C05 key.rsa.construct   `if u <= 1 or u >= q:` -> `u > q`                            exit 0  EQUIVALENT mutant: u == q fails the next test (p*u % q == 1)
+#   C05 key.rsa.construct   local `phi` renamed                                         exit 0  (harmless refactoring)
+#   C13 key.rsa.import_der  final `raise ValueError(...)` of _import_keyDER -> KeyError exit 1  _import_keyDER.raises_only.KeyError
+#   C13 key.rsa.import_der  `except ValueError:` -> `except KeyError:` in the loop      exit 0  contract-equivalent: the ValueError then escapes, which
+#                                                                                               the (exception-type) contract allows; the cascade ORDER is not specified here
+#   C08 key.rsa.roundtrip   p and q swapped in the exported DerSequence                 exit 1  rsa_pkcs1_roundtrip.ensures.identity
+#
+# NOT PROVED: RSA.generate: the `while n.size_in_bits() != bits and d < (1 << (bits // 2))` loop with the closures filter_p / filter_q handed to
+#             generate_probable_prime (closure-valued arguments of an assumed callee + loop invariant over Integer.sqrt bounds): P1, not attempted.
+# NOT PROVED: RSA.construct with a 3-tuple (n, e, d): the factor-recovery loops (`while t % 2 == 0`, `while not spotted and a < 100`, `while k < ktot`)
+#             need three nested invariants over modpow; the 2-, 5- and 6-tuple shapes are proved.  (consistency_check=False: out of the property's scope.)
+# NOT PROVED: export_key: OpenSSH (base64), PEM, PKCS#8 (protected) and the public SubjectPublicKeyInfo path (DerBitString is not in the exact codec);
+#             _import_openssh_private_rsa (bcrypt / AES container: bounded).  RsaKey.__eq__ between an RsaKey and a non-RsaKey (AttributeError natively).
